@@ -59,12 +59,13 @@ type c19Sibling struct {
 
 func init() {
 	register(&Prop{ID: "C19", Run: c19Run,
-		Rule: "overlay source documents of 1-3 layers (built with Put, some layers with Populate) and 0-2 reference overlays over a prefix-free pool of 9 leaf paths (incl. nested containers and list items); values are typed scalars or templates mentioning pool keys that come later in a fixed order (acyclic), unknown keys, defaults (also nested), repeated mentions, the ${k:def} whole-value form, unterminated tails and (rarely) nested keys; key filters all/none/prefix/not/in (half of the all-cases leave the filter to the builders' default instead of setting it); impact keys with repeats and unknown keys; HISTORY: half of the cases have 1-2 sibling families of differently configured objects from their own builder calls (placeholder resolver with another key filter and, 2 in 5, another placeholder matcher never/always/contains-$; impact analysis with that filter; dependency resolver with, 3 in 10, another matcher never/substring), built and (3 in 4) run on the source document before the objects under test are built, or between their construction and their run; the objects under test are run again after everything else (even-numbered repeated runs), and sibling placeholder resolvers with the default matcher are held to the FailedKeys clause for their own filter. Kind history (c19_hist.go): ONE set of long-lived overlay documents and ONE family of long-lived analytics objects go through analyse - edit - analyse ... (1-4 rounds of 1-3 edits): every analysis (the three reports and OverlayDocument.Search per pool key) is held to the clauses on the content the documents have at that moment, to the reports of fresh objects (dependency resolver from the builder instead of DefaultDependencyResolver) on freshly built documents of the same content, and to the model; before every edit the documents are read through Search / Merged / Flatten / LookupAny; each edit changes one pool leaf (7 in 10 at depth >= 2 or inside a list) along a named route - OverlayDocument.Put / Populate / Add (the added container is kept and later edited: held), the nearest composite handed out by Lookup or to a Walk visitor (AddValue, list Set / MustSet / Append / Clear, Remove), the layer root (AddValueAt / RemoveAt) - in a source or a reference document; 1 in 6 histories pass the source document object also as first reference. Non-trivial: at least one value of the source or a reference mentions a merged key (history: two analyses with an edit between). Distinct = distinct canonical case JSON.",
+		Rule: "overlay source documents of 1-3 layers (built with Put, some layers with Populate) and 0-2 reference overlays over a prefix-free pool of 9 leaf paths (incl. nested containers and list items); values are typed scalars or templates mentioning pool keys that come later in a fixed order (acyclic), unknown keys, defaults (also nested), repeated mentions, the ${k:def} whole-value form, unterminated tails and (rarely) nested keys; key filters all/none/prefix/not/in (half of the all-cases leave the filter to the builders' default instead of setting it); impact keys with repeats and unknown keys; HISTORY: half of the cases have 1-2 sibling families of differently configured objects from their own builder calls (placeholder resolver with another key filter and, 2 in 5, another placeholder matcher never/always/contains-$; impact analysis with that filter; dependency resolver with, 3 in 10, another matcher never/substring), built and (3 in 4) run on the source document before the objects under test are built, or between their construction and their run; the objects under test are run again after everything else (even-numbered repeated runs), and sibling placeholder resolvers with the default matcher are held to the FailedKeys clause for their own filter. Kind history (c19_hist.go): ONE set of long-lived overlay documents and ONE family of long-lived analytics objects go through analyse - edit - analyse ... (1-4 rounds of 1-3 edits): every analysis (the three reports and OverlayDocument.Search per pool key) is held to the clauses on the content the documents have at that moment, to the reports of fresh objects (dependency resolver from the builder instead of DefaultDependencyResolver) on freshly built documents of the same content, and to the model; before every edit the documents are read through Search / Merged / Flatten / LookupAny; each edit changes one pool leaf (7 in 10 at depth >= 2 or inside a list) along a named route - OverlayDocument.Put / Populate / Add (the added container is kept and later edited: held), the nearest composite handed out by Lookup or to a Walk visitor (AddValue, list Set / MustSet / Append / Clear, Remove), the layer root (AddValueAt / RemoveAt) - in a source or a reference document; 1 in 6 histories pass the source document object also as first reference. VALUE RANGE (c19_wide.go; kind reports): half of the cases take their pool (up to 12 prefix-free leaf paths, in a shuffled order - values mention keys later in the order of their case) from families of confusable spellings: letter-case twins of a leaf name or of a path segment (maxConn / maxconn, d.e / D.e, l[0] / L[0]), characters whose case folds onto ASCII letters (U+017F, U+212A), leading / trailing / inner white space (space, tab, NBSP, line break), Unicode composition twins, supplementary-plane characters, U+FFFD, characters that look like syntax, digit strings around 2^63 / 2^64, boolean / null spellings, names that are prefixes of each other; the family members that are not in the pool serve as unknown keys (mentioned, requested from impact analysis); filters take their arguments from the case's pool (prefix filter: a prefix of a pool key cut at a character boundary, 1 in 4 upper-cased); the text between placeholders and the plain values include tab, NBSP, supplementary-plane characters, U+FFFD, '$', '{', '}', ':', a backslash and long digit strings; one wide case in three names its source layers from families of confusable layer names (case / white-space twins, unclean paths, the empty name). Keys are the same exactly when they are the same string. Non-trivial: at least one value of the source or a reference mentions a merged key (history: two analyses with an edit between). Distinct = distinct canonical case JSON.",
 		Assumptions: []string{
 			"the overlay itself (Put/Populate/Merged/Flatten/Layers) is not modelled here: the model functions take Merged().Flatten() and each layer's Flatten() as inputs, computed by the harness from the real overlay document (C06/C02 cover the overlay and flattening)",
 			"values mention leaf keys of the merged document and unknown keys only: a mention of a container/list position makes the PlaceholderResolver panic (v.(dom.Leaf)) and is outside the property's quantifier (DESIGN section 2); mentions are acyclic (a true cycle panics by contract)",
 			"the public DependencyResolverBuilder offers no key filter, so the dependency report is checked with the built-in matchAll; key filters are exercised on the placeholder report (impact analysis stores its filter but never consults it)",
 			"coordinate lists are compared as multisets (sorted by layer, path)",
+			"a key (path segment) contains none of the characters the path / placeholder syntax is made of: '.', '[', ']', ':', \"${\", '}' - nor ',' (separator of this harness's own `in` filter argument); every other character is in the domain",
 			"independence from process history is probed by at most 2 sibling families per case; every case first builds one family of objects with every option set explicitly to the documented default, so its outcome depends on its own history only and the recorded case replays in a fresh process; sibling reports are checked only for the default placeholder matcher"}})
 	evals["C19"] = c19Eval
 	shrinkers["C19"] = shrinkJSON
@@ -75,7 +76,10 @@ func init() {
 var c19Pool = []string{"a", "b", "c", "d.e", "d.f", "g.h.i", "l[0]", "l[1]", "k1"}
 var c19Unknown = []string{"nope", "u1", "zz.q"}
 
-func c19Value(r *rand.Rand, idx int) W {
+func c19Value(r *rand.Rand, idx int) W { return c19ClassicGen().value(r, idx) }
+
+func (g *c19Gen) value(r *rand.Rand, idx int) W {
+	c19Pool, c19Unknown := g.pool, g.unknown
 	later := c19Pool[idx+1:]
 	if len(later) == 0 || r.Intn(20) < 7 {
 		switch r.Intn(8) {
@@ -88,10 +92,10 @@ func c19Value(r *rand.Rand, idx int) W {
 		case 3:
 			return scalarWire(pick(r, c19Pool)) // a key name as plain text (target of nested keys)
 		default:
-			return scalarWire(pick(r, []string{"x", "v1", "a b", "", "1"}))
+			return scalarWire(pick(r, g.plain))
 		}
 	}
-	text := func() string { return pick(r, []string{"x", "-", "v1", " ", "_"}) }
+	text := func() string { return pick(r, g.texts) }
 	ph := func() string {
 		switch r.Intn(12) {
 		case 0, 1, 2, 3:
@@ -134,14 +138,19 @@ func c19Value(r *rand.Rand, idx int) W {
 }
 
 func c19GenDoc(r *rand.Rand, names []string, maxLayers int) c19Doc {
-	n := 1 + r.Intn(maxLayers)
+	return c19ClassicGen().doc(r, names, maxLayers)
+}
+
+func (g *c19Gen) doc(r *rand.Rand, names []string, maxLayers int) c19Doc {
+	c19Pool := g.pool
+	n := 1 + r.Intn(min(maxLayers, len(names)))
 	var d c19Doc
 	for i := 0; i < n; i++ {
 		l := c19Layer{Name: names[i], Puts: []c19Put{}}
 		indexFree := true
 		for idx, k := range c19Pool {
 			if r.Intn(2) == 0 {
-				l.Puts = append(l.Puts, c19Put{Path: k, V: c19Value(r, idx)})
+				l.Puts = append(l.Puts, c19Put{Path: k, V: g.value(r, idx)})
 				if strings.Contains(k, "[") {
 					indexFree = false
 				}
@@ -155,9 +164,21 @@ func c19GenDoc(r *rand.Rand, names []string, maxLayers int) c19Doc {
 	return d
 }
 
-func c19GenFilter(r *rand.Rand) c19Filter {
+func c19GenFilter(r *rand.Rand) c19Filter { return c19ClassicGen().filter(r) }
+
+func (g *c19Gen) filter(r *rand.Rand) c19Filter {
+	c19Pool := g.pool
 	switch r.Intn(5) {
 	case 0:
+		if g.wide {
+			// a prefix of a pool key (cut at a character boundary), sometimes in another letter case
+			k := []rune(pick(r, c19Pool))
+			p := string(k[:r.Intn(len(k)+1)])
+			if r.Intn(4) == 0 {
+				p = strings.ToUpper(p)
+			}
+			return c19Filter{Kind: "prefix", Arg: p}
+		}
 		return c19Filter{Kind: "prefix", Arg: pick(r, []string{"d", "d.", "l", "k"})}
 	case 1:
 		return c19Filter{Kind: "not", Arg: pick(r, c19Pool)}
@@ -169,8 +190,10 @@ func c19GenFilter(r *rand.Rand) c19Filter {
 	return c19Filter{Kind: "all"}
 }
 
-func c19GenSibling(r *rand.Rand) c19Sibling {
-	sb := c19Sibling{Filter: c19GenFilter(r), When: "before", Use: r.Intn(4) > 0}
+func c19GenSibling(r *rand.Rand) c19Sibling { return c19ClassicGen().sibling(r) }
+
+func (g *c19Gen) sibling(r *rand.Rand) c19Sibling {
+	sb := c19Sibling{Filter: g.filter(r), When: "before", Use: r.Intn(4) > 0}
 	if r.Intn(5) < 2 {
 		sb.Matcher = pick(r, []string{"never", "always", "dollar"})
 	}
@@ -187,24 +210,29 @@ func c19Run(c *Ctx) {
 	r := c.Rng
 	for i := 0; i < c.N(2000); i++ {
 		c.Tick()
-		cs := c19Case{Docs: []c19Doc{c19GenDoc(r, []string{"base", "env", "local"}, 3)}}
-		for j := r.Intn(3); j > 0; j-- {
-			names := []string{"r1", "r2"}
-			if r.Intn(4) == 0 {
-				names = []string{"base", "r2"} // a reference layer named like a source layer
-			}
-			cs.Docs = append(cs.Docs, c19GenDoc(r, names, 2))
+		// the pools of this case: the classic ones, or (half of the cases) confusable spellings (c19_wide.go)
+		g := c19ClassicGen()
+		if r.Intn(2) == 0 {
+			g = c19WideGen(r)
 		}
-		switch r.Intn(8) {
-		case 0:
-			cs.Filter = c19Filter{Kind: "prefix", Arg: pick(r, []string{"d", "d.", "l", "k"})}
-		case 1:
-			cs.Filter = c19Filter{Kind: "not", Arg: pick(r, c19Pool)}
-		case 2:
-			cs.Filter = c19Filter{Kind: "in", Arg: pick(r, c19Pool) + "," + pick(r, c19Pool) + "," + pick(r, c19Pool)}
-		case 3:
-			cs.Filter = c19Filter{Kind: "none"}
-		default:
+		srcNames, refNames := []string{"base", "env", "local"}, []string{"r1", "r2"}
+		if g.wide {
+			srcNames = c19LayerNames(r, srcNames)
+		}
+		cs := c19Case{Docs: []c19Doc{g.doc(r, srcNames, 3)}}
+		for j := r.Intn(3); j > 0; j-- {
+			names := refNames
+			if r.Intn(4) == 0 {
+				names = []string{srcNames[0], "r2"} // a reference layer named like a source layer
+			}
+			cs.Docs = append(cs.Docs, g.doc(r, names, 2))
+		}
+		if r.Intn(8) < 4 {
+			cs.Filter = g.filter(r)
+			for cs.Filter.Kind == "all" {
+				cs.Filter = g.filter(r)
+			}
+		} else {
 			cs.Filter = c19Filter{Kind: "all"}
 		}
 		if cs.Filter.Kind == "all" && r.Intn(2) == 0 {
@@ -212,15 +240,15 @@ func c19Run(c *Ctx) {
 		}
 		if r.Intn(2) == 0 {
 			for j := 1 + r.Intn(2); j > 0; j-- {
-				cs.Siblings = append(cs.Siblings, c19GenSibling(r))
+				cs.Siblings = append(cs.Siblings, g.sibling(r))
 			}
 		}
 		cs.Keys = []string{}
 		for j := r.Intn(7); j > 0; j-- {
 			if r.Intn(5) == 0 {
-				cs.Keys = append(cs.Keys, pick(r, c19Unknown))
+				cs.Keys = append(cs.Keys, pick(r, g.unknown))
 			} else {
-				cs.Keys = append(cs.Keys, pick(r, c19Pool))
+				cs.Keys = append(cs.Keys, pick(r, g.pool))
 			}
 		}
 		c.Do("reports", cs)
@@ -614,6 +642,9 @@ func c19Eval(c *Ctx, kind string, raw []byte) {
 	orphans := dep["orphans"].([]any)
 	dmap := dep["map"].(map[string]any)
 	mkeys := sortedKeys(merged)
+	for _, sh := range c19KeyShape(mkeys) {
+		c.Dist("keys:" + sh)
+	}
 	// AllKeys == sorted(Flatten(Merged) keys passing the filter)   [dependency resolver: matchAll]
 	c.Direct("AllKeys == sorted(Flatten(Merged) keys)", canon(all) == canon(c19Strs(mkeys)), map[string]any{"AllKeys": all, "expected": mkeys})
 	// OrphanKeys == sorted(AllKeys \ mentioned);  Map[k] == multiset of (layer, path) whose value mentions k
